@@ -359,6 +359,8 @@ func limbStrategy(name string) engine.HintStrategy {
 			return []*big.Int{new(big.Int).Sub(hi, one), new(big.Int).Add(lo, two32)}
 		case "hi+1": // (hi+1, lo-2^32 mod r)
 			return []*big.Int{new(big.Int).Add(hi, one), new(big.Int).Mod(new(big.Int).Sub(lo, two32), bigR)}
+		case "lo-all": // (0, x): recomposes trivially; acceptable only if the low limb's width is not enforced
+			return []*big.Int{new(big.Int), new(big.Int).Mod(c.Inputs[0], bigR)}
 		case "modp": // limbs of x mod p: a different value, must fail the recomposition
 			y := new(big.Int).Mod(c.Inputs[0], bigP)
 			q, r := new(big.Int).QuoRem(y, two32, new(big.Int))
